@@ -100,7 +100,7 @@ def cmd_import(src, sid):
 def cmd_detect(sid, props=None, tier="quick", seed="0"):
     d = os.path.join(SEEDED, sid)
     meta = json.load(open(os.path.join(d, "meta.json")))
-    props = props or [meta["breaks"]]
+    props = props or ([meta["breaks"]] + list(meta.get("also_checks", [])))
     res = {}
     with Worktree("det_" + sid) as wt:
         rc, out = sh(["git", "-C", wt, "apply", "--whitespace=nowarn", os.path.join(d, "patch.diff")])
